@@ -132,6 +132,7 @@ qlisttbl_t *qconfig_parse_file(qlisttbl_t *tbl, const char *filepath,
 
     // process include directive
     char *strp = str;
+    size_t produced = 0;  // amount of text produced by inclusions so far
 
     while ((strp = strstr(strp, _INCLUDE_DIRECTIVE)) != NULL) {
         if (strp == str || strp[-1] == '\n') {
@@ -186,6 +187,15 @@ qlisttbl_t *qconfig_parse_file(qlisttbl_t *tbl, const char *filepath,
             free(incdata);
             free(str);
             str = strp;
+
+            // a file which includes itself, directly or through others, never
+            // runs out of directives, so the text produced is limited.
+            produced += strlen(str) + 1;
+            if (produced > _MAX_EXPANSION) {
+                DEBUG("Can't process %s directive.", _INCLUDE_DIRECTIVE);
+                free(str);
+                return NULL;
+            }
         } else {
             strp += CONST_STRLEN(_INCLUDE_DIRECTIVE);
         }
